@@ -1,7 +1,7 @@
 (* Properties/C19.v — timeouts and Close. *)
-From Coq Require Import List ZArith Bool.
+From Coq Require Import List ZArith Bool Lia.
 Import ListNotations.
-Require Import Reassembler ReasmInv ReasmC01 ReasmClose ReasmCause.
+Require Import Reassembler ReasmInv ReasmC01 ReasmClose ReasmCause ChkReasm ReasmWalk.
 Open Scope Z_scope.
 
 (* after a Close, whatever else is called, Maintain and a further Close return the
@@ -18,6 +18,24 @@ Proof. exact first_close_succeeds. Qed.
 (* and it flushes: chk_C01 requires that no pushed message is left undelivered after a successful Close *)
 Theorem C19_close_flushes_everything : forall c ops, chk_C01 [] ops (run c init ops) = true.
 Proof. exact ReasmC01.C01_exactly_once_grouped. Qed.
+
+(* THE WHOLE PROPERTY ON TRACES.  chk_C19_obs is the checker the judge evaluates on recorded
+   histories (clock stamps around every call): after every Maintain / PushMessage the oldest remaining
+   event is not one whose timeout had elapsed when the call began; no delivery outside Close without
+   cause (so none on account of time before the timeout); the first Close returns success and leaves
+   nothing undelivered; afterwards Maintain and Close return the error and make no callback.  It
+   accepts every run of the model, for every timeout (negative, zero, any) and all clock readings. *)
+Theorem C19_timeout_and_close_on_traces : forall c ops, 0 <= maxSize c -> clock_ok ops ->
+  chk_C19_obs (maxSize c) (timeout c) (map exact ops) (run c init ops) = true.
+Proof. exact chk_C19_obs_run. Qed.
+
+(* non-vacuity: timeout 10; a record at time 0, Maintain at 5 (nothing), Maintain at 11 (flushed), Close, Maintain *)
+Example C19_example :
+  let ops := [Push (Some (Build_msg 0 7 1300)) 0 0; Maintain 5; Maintain 11; Push (Some (Build_msg 1 8 1300)) 12 12; Close; Maintain 20; Close] in
+  clock_ok ops /\
+  run {| maxSize := 5; timeout := 10 |} init ops =
+    [[]; [Ret true]; [Complete [Build_msg 0 7 1300]; Ret true]; []; [Complete [Build_msg 1 8 1300]; Ret true]; [Ret false]; [Ret false]].
+Proof. split; [repeat constructor; cbn; lia | vm_compute; reflexivity]. Qed.
 
 (* timeouts, on the model's state, for every buffer content, configuration (negative, zero, any
    timeout) and clock reading: what CleanUp leaves at the head is not expired — so an event that
@@ -43,6 +61,7 @@ Theorem C19_expiry_fixed_at_open : forall c now m s,
   (forall k e, lookup k (events s) = Some e -> exists e', lookup k (events (put c now m s)) = Some e' /\ expire e' = expire e).
 Proof. intros c now m s. split; [apply put_opens_with_timeout | intros k e; apply put_keeps_expiry]. Qed.
 
+Print Assumptions C19_timeout_and_close_on_traces.
 Print Assumptions C19_head_not_stale.
 Print Assumptions C19_no_early_timeout.
 Print Assumptions C19_expiry_fixed_at_open.
